@@ -37,23 +37,40 @@ META = {
         "C08_unrelated_rows_irrelevant, C08_order_config_rank, C08_cfg_clauses]. "
         "REFUTED (1): 'rows no rule mentions keep their relative order' is false as stated -- an unmentioned row starting "
         "with the negation word sorts before unmentioned commands [C08_unmentioned_stable_refuted, witness replayed on "
-        "the real Orderer.order_config, open finding in known/C08.json]; proved instead per kind of row "
-        "[C08_unmentioned_stable_partial] and in full when no unmentioned row is negated [C08_unmentioned_stable]. "
-        "REFUTED (2): 'the relative order of two commands does not depend on unrelated lines' is false across whole "
-        "configurations for commands whose keys tie: they keep the diff's order, and base_diff indexes removed rows by "
-        "their position in old and the others by their position in new [C08_unrelated_row_refuted, witness replayed "
-        "on the real _diff_and_patch, open finding]; the sort itself is proved innocent (sublist/filter theorems) and "
-        "the weaker clause meta_weak (smaller patch sorted, its paths contained in the full patch) is checked on real "
-        "outputs. "
-        "NOT proved, only tested: meta_weak for the model's pipeline (needs a theory of make_diff under row removal), "
-        "and the rank of rows matched by several overlapping rules (best-match by character weight: outside the "
-        "property's quantifier). "
+        "the real Orderer.order_config, open finding in known/C08.json]; proved instead, for all inputs and without a "
+        "guard, what order_config does: the unmentioned rows of the result are the unmentioned negated rows in input "
+        "order followed by the other unmentioned rows in input order [C08_unmentioned_exact, "
+        "C08_unmentioned_exact_clause -- also evaluated on the real outputs]; hence per kind of row "
+        "[C08_unmentioned_stable_partial] and the sentence itself when no unmentioned row is negated "
+        "[C08_unmentioned_stable]. Top level of the tree handed to order_config only (deeper levels are covered by "
+        "the rank clause, not by this one). "
+        "REFUTED (2) and PROVED under the exact guard: 'the relative order of two commands does not depend on unrelated "
+        "lines' is false across whole configurations for commands whose keys tie: they keep the diff's order, and "
+        "base_diff indexes removed rows by their position in old and the others by their position in new "
+        "[C08_unrelated_row_refuted, witness replayed on the real _diff_and_patch, open finding]. PROVED for all "
+        "rulebooks, ordering rulebooks, vendors and trees of any depth (model pipeline, Model/Pipeline.v): if the row r "
+        "is unrelated in the computable sense meta_guard (Spec/P_C08meta.v: the rules do not know r; or r stands in old "
+        "and in new at the same position within its %diff_logic class, is not under rewrite_diff, shares its raw_rule "
+        "with no other top-level row, and its removal keeps the first-seen order of the diff logics; r's own subtree "
+        "may differ arbitrarily), then make_diff(old-r,new-r) = make_diff(old,new) minus r's entry "
+        "[C08_diff_minus_row, C08_base_diff_minus_row], make_pre loses exactly r's group [C08_pre_minus_group], the "
+        "unsorted and the sorted patch lose exactly the items of that group with everything else in place "
+        "[C08_unsorted_minus_group, C08_patch_minus_group, C08_unrelated_row_patch], hence every two remaining "
+        "commands keep their relative order at every depth [C08_unrelated_row, C08_drop_rule_sublist, non-vacuity "
+        "C08_unrelated_row_nonvacuous; the finding's witness fails the guard]; the same guard and relation are "
+        "evaluated by Coq on the real outputs [clause meta2 = c8_meta_guarded, C08_unrelated_row_clause]. The guard is "
+        "sufficient, not necessary: rows present on one side only, or at different positions, or sharing their rule, "
+        "are outside it (that class contains the open finding). "
+        "NOT proved, only tested: the rank of rows matched by several overlapping rules (best-match by character "
+        "weight: outside the property's quantifier); meta_weak outside the guard. "
         "CORRESPONDENCE (testing): on generated patching+ordering rulebooks (depth<=3, %order_reverse, %global, %scope, "
         "negated-form rules) and config pairs, Coq compares the model's sorted patch, unsorted patch and order_config "
         "with the real make_patch (with and without PatchTree.sort) and Orderer.order_config (trees with negated "
         "rows and the exit word), and evaluates P_C08 on the real outputs (sorted, stable sort of the unsorted patch, "
         "path multiset, rank at every depth, the real PatchTree.sort applied to the fully unsorted tree, order_config "
-        "permutes / idempotent / reference rank order at every depth / unmentioned rows, metamorphic row removal)."),
+        "permutes / idempotent / reference rank order at every depth / unmentioned rows incl. the exact negated-first "
+        "form, metamorphic row removal: the runner's own pick (weak form + known finding) and a second run "
+        "(harness/impl/c08_runner.py) whose row is steered towards the guard and whose guard is evaluated by Coq)."),
     "technique": "Coq proofs (induction over lists, patch trees, pre trees, config trees) about stable insertion sort, "
                  "get_order, make_patch, order_config; vm_compute evaluation of P_C08 and of model/implementation "
                  "agreement on real make_patch/order_config outputs",
@@ -62,15 +79,21 @@ META = {
             "the tie to the code is differential testing bounded by the generator. Rules matched ambiguously are not "
             "ranked by the reference. %multiline, comments and vendor %logic functions are not modelled.",
 }
-IMPORTS = P.PIPE_IMPORTS + "\nFrom Annet Require Import Spec.P_C03 Spec.P_C08."
+IMPORTS = P.PIPE_IMPORTS + "\nFrom Annet Require Import Spec.P_C03 Spec.P_C08 Spec.P_C08meta."
 
 KNOWN_NEG = "C08/cfg_unmentioned/negated-row-no-rule-mentions"
 KNOWN_TIE = "C08/meta/tied-commands-follow-diff-position"
 KNOWN = (KNOWN_NEG, KNOWN_TIE)
 CL = ["sorted", "stable_sort_of", "multiset", "rank", "cfg_perm", "cfg_idem", "cfg_unmentioned",
       "cfg_unmentioned_kind", "cfg_rank", "resort", "meta", "meta_weak"]
+# the guarded metamorphic clause (Spec/P_C08meta.v, c8_meta2): the guard of theorem C08_unrelated_row, evaluated
+# by Coq on the case, implies that the real patch of (old - r, new - r) is the real patch of (old, new) without
+# the items of r's rule
+# ... and what order_config does with unmentioned rows, exactly (C08_unmentioned_exact_clause)
+CL2 = {"meta2": "c8_meta2 {C} {M}", "cfg_unmentioned_exact": "c8_cfg_unmentioned_exact {O}"}
+TY = "pcase * obs08 * meta_obs"
 CASE_KEYS = ("vendor", "rules", "orules", "patching", "ordering", "old", "new", "meta_pick", "order_cfg", "cfg_mode",
-             "diff_mode")
+             "diff_mode", "meta_row2", "meta2_mode")
 
 
 def gen_order_cfg(rng, c) -> tuple[dict, str]:
@@ -136,12 +159,70 @@ def tweak(rng, c, i):
     if not c["orules"]:
         c["orules"] = P.gen_ordering(rng, c["rules"], P.VENDORS[c["vendor"]][0])
         c["ordering"] = P.ordering_text(c["orules"])
+    pick_meta_row2(rng, c)
     c["order_cfg"], c["cfg_mode"] = gen_order_cfg(rng, c)
     return c
 
 
+def pick_meta_row2(rng, c) -> None:
+    """The row taken out of old and new in the guarded metamorphic run.  Python only steers towards rows for
+    which the guard of C08_unrelated_row is likely to hold; whether it holds is decided by Coq (meta_guard).
+    'planted': a row of a rule no other top-level row uses, put at the head of old and of new with
+    independently generated subtrees; 'same-slot': an existing common row of a rule no other top-level row
+    uses, standing at the same position among the rows the rules know; 'unknown': a row no rule knows;
+    'any': any top-level row (mostly outside the guard)."""
+    rules = c["rules"]
+
+    def rule_of(row):
+        return P.rule_for(row, rules)
+
+    def users(rule):
+        return [k for k in list(c["old"]) + list(c["new"]) if rule_of(k) is rule]
+
+    x = rng.random()
+    mode, row = "none", None
+    if x < 0.30:
+        free = [r for r in rules if not users(r) and not r["ign"]]
+        if free:
+            r = rng.choice(free)
+            row = P.inst(rng, r["pat"])
+            if row not in c["old"] and row not in c["new"] and rule_of(row) is r:
+                ko = P.gen_config(rng, r["kids"], 1, 0.7) if r["kids"] else {}
+                kn = P.mutate_config(rng, ko, r["kids"], rate=0.6) if (r["kids"] and rng.random() < 0.8) else ko
+                c["old"] = dict([(row, ko)] + list(c["old"].items()))
+                c["new"] = dict([(row, kn)] + list(c["new"].items()))
+                mode = "planted"
+            else:
+                row = None
+    if row is None and x < 0.70:
+        known_o = [k for k in c["old"] if rule_of(k) is not None]
+        known_n = [k for k in c["new"] if rule_of(k) is not None]
+        cand = [k for k in known_o if k in c["new"] and known_o.index(k) == known_n.index(k)
+                and len(set(users(rule_of(k)))) == 1]
+        if cand:
+            row, mode = rng.choice(cand), "same-slot"
+    if row is None and x < 0.80:
+        unk = [k for k in c["old"] if k in c["new"] and rule_of(k) is None]
+        if unk:
+            row, mode = rng.choice(unk), "unknown"
+    if row is None and x < 0.95:
+        allrows = sorted(set(c["old"]) | set(c["new"]))
+        if allrows:
+            row, mode = rng.choice(allrows), "any"
+    c["meta_row2"], c["meta2_mode"] = row, mode
+
+
 def payload(c) -> dict:
-    return P.impl_payload(c, c08=True, meta_pick=c["meta_pick"], order_cfg=c["order_cfg"])
+    return P.impl_payload(c, c08=True, meta_pick=c["meta_pick"], order_cfg=c["order_cfg"],
+                          meta_row2=c.get("meta_row2"))
+
+
+def coq_meta2(c, o) -> str:
+    """meta_obs: Some (row, Some patch | None) when the second metamorphic run was made"""
+    if "meta2_row" not in o:
+        return "None"
+    m = None if "meta2_patch" not in o else P.coq_ptree(o["meta2_patch"])
+    return f"(Some ({core.cstr(o['meta2_row'])}, {copt(m)}))"
 
 
 def coq_obs(c, o) -> str:
@@ -161,25 +242,33 @@ def evaluate(cases, outs, keep):
     # parsing the case terms dominates the cost: leave out the observables C08 does not look at
     def slim(o):
         return dict(o, diff_full=[], diff=[], cmd_paths=[], patch_lines=[])
-    terms = [f"({P.coq_pcase(cases[i], slim(outs[i]))}, {coq_obs(cases[i], slim(outs[i]))})" for i in keep]
+    terms = [f"({P.coq_pcase(cases[i], slim(outs[i]))}, {coq_obs(cases[i], slim(outs[i]))}, {coq_meta2(cases[i], outs[i])})"
+             for i in keep]
     per = min(25, max(10, -(-len(terms) // core.NPROC)))      # ~10 KB of Coq term and ~10 MB of coqc memory per case
-    res1 = core.run_case_files(ID, "pcase * obs08", IMPORTS,
-                               {"ok": "fun x => P_C08 (snd x) && agree_all (fst x) (snd x)"}, terms, per_file=per)
+    C, O, M = "(fst (fst x))", "(snd (fst x))", "(snd x)"
+    res1 = core.run_case_files(ID, TY, IMPORTS,
+                               {"ok": f"fun x => P_C08 {O} && agree_all {C} {O} && c8_meta2 {C} {M} && c8_cfg_unmentioned_exact {O}",
+                                # for the evidence (indices where the predicate is false = the guard holds)
+                                "meta2_guard": f"fun x => negb (c8_meta2_guard {C} {M})",
+                                "meta2_known": f"fun x => negb (c8_meta2_known {C} {M})"}, terms, per_file=per)
     bad = res1["ok"]
-    preds2 = {"holds": "fun x => P_C08 (snd x)",
-              "agree_patch": "fun x => agree_patch (fst x)",
-              "agree_unsorted": "fun x => agree_unsorted (fst x) (snd x)",
-              "agree_order_config": "fun x => agree_order_config (snd x)",
+    preds2 = {"holds": f"fun x => P_C08 {O} && c8_meta2 {C} {M} && c8_cfg_unmentioned_exact {O}",
+              "agree_patch": f"fun x => agree_patch {C}",
+              "agree_unsorted": f"fun x => agree_unsorted {C} {O}",
+              "agree_order_config": f"fun x => agree_order_config {O}",
               # indices where the input is in the class of the open finding
-              "neg_unmentioned": "fun x => negb (c8_neg_unmentioned (snd x))"}
-    preds2.update({f"cl_{k}": f"fun x => c8_{k} (snd x)" for k in CL})
+              "neg_unmentioned": f"fun x => negb (c8_neg_unmentioned {O})"}
+    preds2.update({f"cl_{k}": f"fun x => c8_{k} {O}" for k in CL})
+    preds2.update({f"cl_{k}": "fun x => " + e.format(C=C, O=O, M=M) for k, e in CL2.items()})
     res = {k: [] for k in preds2}
     if bad:
         per2 = min(25, max(5, -(-len(bad) // core.NPROC)))
-        res2 = core.run_case_files(ID, "pcase * obs08", IMPORTS, preds2, [terms[j] for j in bad], per_file=per2,
+        res2 = core.run_case_files(ID, TY, IMPORTS, preds2, [terms[j] for j in bad], per_file=per2,
                                    tag="clauses")
         for k, v in res2.items():
             res[k] = [bad[j] for j in v]
+    res["meta2_guard"] = res1["meta2_guard"]
+    res["meta2_known"] = res1["meta2_known"]
     return res
 
 
@@ -187,7 +276,7 @@ def classify(res, j) -> list[tuple[str, list[str]]]:
     """-> [(signature, failed clauses)].  The two listed classes are recognised by Coq-evaluated predicates:
     cfg_unmentioned false while cfg_unmentioned_kind holds and the tree has a negated unmentioned row;
     meta false while meta_weak holds.  Anything else failing in the same case is reported separately."""
-    failed = [k for k in CL if j in res[f"cl_{k}"]]
+    failed = [k for k in CL + list(CL2) if j in res[f"cl_{k}"]]
     out, rest = [], list(failed)
     if "cfg_unmentioned" in rest and "cfg_unmentioned_kind" not in rest and j in res["neg_unmentioned"]:
         out.append((KNOWN_NEG, ["cfg_unmentioned"]))
@@ -209,7 +298,7 @@ def run(ctx):
     rng = ctx.rng("c08")
     n = 4800 if ctx.thorough else 640
     cases = [tweak(rng, P.gen_case(rng), i) for i in range(n)]
-    outs = core.run_impl_sharded("pipeline_runner.py", [payload(c) for c in cases])
+    outs = core.run_impl_sharded("c08_runner.py", [payload(c) for c in cases])
     keep = [i for i, o in enumerate(outs) if "fatal" not in o and "order_new" in o]
     if len(keep) < len(cases):
         bad = set(range(len(cases))) - set(keep)
@@ -270,6 +359,13 @@ def run(ctx):
         seen.add(h)
         if k >= 3 and c["orules"]:
             nt += 1
+    m2modes: dict[str, int] = {}
+    m2all: dict[str, int] = {}
+    for i in keep:
+        m2all[cases[i]["meta2_mode"]] = m2all.get(cases[i]["meta2_mode"], 0) + 1
+    for j in res["meta2_guard"]:
+        md = cases[keep[j]]["meta2_mode"]
+        m2modes[md] = m2modes.get(md, 0) + 1
     ctx.coverage.update({
         "evaluations": len(cases), "distinct_nontrivial": nt,
         "rule": "random patching + ordering rulebooks (depth<=3, %order_reverse, %global, %scope, reverse-form rules, '~'), "
@@ -280,6 +376,11 @@ def run(ctx):
         "traces_validated_against_impl": len(keep),
         "disagreements_checked": len(res["agree_patch"]) + len(res["agree_unsorted"]) + len(res["agree_order_config"]),
         "metamorphic_runs": sum(1 for o in outs if "meta_patch" in o),
+        "guarded_metamorphic_runs": sum(1 for o in outs if "meta2_row" in o),
+        "guarded_metamorphic_guard_holds": len(res["meta2_guard"]),
+        "guarded_metamorphic_guard_holds_row_known_to_rules": len(res["meta2_known"]),
+        "guarded_metamorphic_guard_holds_by_mode": m2modes,
+        "guarded_metamorphic_mode_histogram": m2all,
         "order_cfg_mode_histogram": modes,
         "diff_mode_histogram": dmodes,
         "vendor_histogram": vend,
@@ -305,13 +406,13 @@ def replay(ctx, doc):
     if "rules" not in c:
         print(c)
         return 1
-    outs = core.run_impl_sharded("pipeline_runner.py", [payload(c)])
+    outs = core.run_impl_sharded("c08_runner.py", [payload(c)])
     o = outs[0]
     if "fatal" in o or "order_new" not in o:
         print("implementation raised:", str(o)[:800])
         return 1
     res = evaluate([c], outs, [0])
-    failed = {k: v for k, v in res.items() if v and k != "neg_unmentioned"}
+    failed = {k: v for k, v in res.items() if v and k not in ("neg_unmentioned", "meta2_guard", "meta2_known")}
     print("case:", {k: c[k] for k in ("vendor", "patching", "ordering", "old", "new", "order_cfg")})
     print("order_config ->", o["order_new"])
     print("false predicates:", sorted(failed) or "none")
